@@ -85,12 +85,13 @@ def parse_tuples(out, tag):
     """Extract TLC-printed tuples <<"TAG", ...>> by bracket matching (16-worker output may
     interleave lines). Returns list of raw strings."""
     res = []
-    key = '<<"%s"' % tag
+    key = re.compile(r'<<\s*"%s"' % re.escape(tag))
     pos = 0
     while True:
-        k = out.find(key, pos)
-        if k < 0:
+        mk = key.search(out, pos)
+        if mk is None:
             break
+        k = mk.start()
         depth = 0
         j = k
         while j < len(out):
